@@ -197,7 +197,7 @@ CHECKS["C05"] = {
                        "types/leb128.py:LEB128._read", "types/leb128.py:LEB128._write",
                        "types/wchar.py:Wchar._read_array", "types/wchar.py:Wchar._write",
                        "types/char.py:Char._read_array", "<compiled>"],
-    "required_cells": ["long-arrays", "int:int24:>", "int:uint128:<", "int:int64:!", "float:float16:>", "wchar:!", "leb:ileb128",
+    "required_cells": ["float-arrays-with-signed-zeros", "long-arrays", "int:int24:>", "int:uint128:<", "int:int64:!", "float:float16:>", "wchar:!", "leb:ileb128",
                        "leb:uleb128", "switch:compiled", "switch:interpreted"],
     "assumptions": ASSUME_COMMON + ["the native byte orders '@' and '=' are outside the claimed domain"],
 }
@@ -242,7 +242,7 @@ CHECKS["C12"] = {
                        "types/enum.py:EnumMetaType._write", "types/enum.py:EnumMetaType._write_array",
                        "parser.py:TokenParser._enum", "parser.py:CStyleParser._enums", "types/enum.py:Enum.__eq__",
                        "types/flag.py:Flag.__eq__", "types/enum.py:Enum.__hash__", "types/flag.py:Flag.__hash__"],
-    "required_cells": ["pinned-witnesses", "enum:compiled", "enum:interpreted", "flag:compiled", "flag:interpreted", "legacy-parser",
+    "required_cells": ["namesake-enums", "zero-ended-null-terminated-arrays", "pinned-witnesses", "enum:compiled", "enum:interpreted", "flag:compiled", "flag:interpreted", "legacy-parser",
                        "anonymous-enum", "anonymous-constants:flag", "anonymous-constants:enum", "enum-over-enum", "members-named-name-or-value", "dumps-across-endian-switches", "enum:int8", "flag:uint8", "enum:uint24", "flag:int16"],
     "assumptions": ASSUME_COMMON,
 }
